@@ -38,7 +38,7 @@ func (r *readOnlyFile) Stat() (hackpadfs.FileInfo, error) {
 }
 
 func (r *readOnlyFile) Truncate(size int64) error {
-	return r.file.Truncate(size)
+	return &hackpadfs.PathError{Op: "truncate", Path: r.file.path, Err: hackpadfs.ErrInvalid}
 }
 
 func (r *readOnlyFile) ReadDir(n int) ([]hackpadfs.DirEntry, error) {
